@@ -638,6 +638,61 @@ def r8(ctx):
         ctx.ob(fi.qual, "cursor-handed-to-detector:%s" % (seq or "?"), okd, fi.loc(det[0]) if det else fi.loc(w), "detection starts at the cursor" if okd else "the detector of this branch does not start at the cursor %s" % cur)
 
 
+def r9(ctx):
+    """Reference-free detection: a variant is only queued with query offset `query_pos + var_pos - ref_pos` once the
+    variants left of ref_pos have been passed -- after every operation that moves ref_pos without consuming variants
+    (a reference skip) and at the start of the read."""
+    fi = ctx.func("whatshap._variants._detect_alleles")
+    cfg = ctx.cfg(fi)
+    pos = "ref_pos"
+    # offset sites: expressions `<variant position> - ref_pos`
+    sites = []
+    for n in walk_function(fi.node):
+        if isinstance(n, ast.BinOp) and isinstance(n.op, ast.Sub) and u(n.right) == pos:
+            sites.append(n)
+    whiles = [w for w in walk_function(fi.node) if isinstance(w, ast.While)]
+    def inside(n, w):
+        return any(x is n for x in ast.walk(w))
+    qloops = [w for w in whiles if any(inside(s_, w) for s_ in sites)]
+    ctx.require(len(sites) >= 1 and len(qloops) == 1, "queueing loop with the offset `var_pos - ref_pos` not found in _detect_alleles")
+    ql = qloops[0]
+    vp = sorted({x.id for s_ in sites for x in ast.walk(s_.left) if isinstance(x, ast.Name)} - {"query_pos"})
+    # skip loops: leave only through the loop test or through `<var position> >= ref_pos`, advance the cursor by one
+    def is_skip(w):
+        if w is not ql and len(w.body) == 1 and isinstance(w.body[0], ast.AugAssign) and u(w.body[0].value) == "1":
+            # `while j < n and <position of variant j> < ref_pos: j += 1`
+            at = atoms(w.test, True)
+            rest = {a_ for a_ in at if not (a_[1] and a_[0].endswith(" < %s" % pos) and ".position" in a_[0])}
+            if len(rest) == len(at) - 1 and rest == atoms(ql.test, True):
+                return True
+        if w is ql or not u(w.test) == u(ql.test):
+            return False
+        brk = [b for b in ast.walk(w) if isinstance(b, ast.Break)]
+        if len(brk) != 1 or not isinstance(brk[0].parent, ast.If):
+            return False
+        at = sorted(atoms(brk[0].parent.test, True))
+        if not (len(at) == 1 and any(at[0] in (("%s < %s" % (v_, pos), False), ("%s <= %s" % (pos, v_), True)) for v_ in vp)):
+            return False
+        other = [x for x in ast.walk(w) if isinstance(x, (ast.Return, ast.Continue))]
+        return not other
+    skips = [w for w in whiles if is_skip(w)]
+    shead = {cfg.node_of(w) for w in skips}
+    qhead = cfg.node_of(ql)
+    adv = [st_ for st_, _ in util.assignments_to(fi.node, pos) if isinstance(st_, ast.stmt)]
+    ctx.require(len(adv) >= 2, "definitions of ref_pos not found")
+    for st_ in adv:
+        a = cfg.node_of(st_)
+        if cfg.dominates(qhead, a) and a != qhead:
+            # after the queueing loop of the same operation: that loop consumed every variant left of the new ref_pos
+            # (the consumption tables are C06.R1's business)
+            continue
+        path = cfg.find_path(a, qhead, avoid_nodes=shead, start_after=True)
+        ok = path is None
+        if path is not None and any(cfg.kind(x) == "test" and x != qhead and isinstance(cfg.stmt(x), ast.While) and any(isinstance(y, ast.Name) and y.id in vp for y in ast.walk(cfg.stmt(x))) for x in path[1:]):
+            ok = None  # an unrecognised loop over the cursor lies on the way
+        ctx.ob(fi.qual, "variants-left-of-ref_pos-passed-before-queueing:%s" % u(st_)[:40], ok, fi.loc(st_), "after `%s` the cursor passes every variant left of ref_pos before a variant is queued with offset var_pos - ref_pos" % u(st_) if ok else "after `%s` (ref_pos moves without looking at variants) the next operation queues pending variants with a negative offset var_pos - ref_pos: a read gets an allele for a variant inside a reference skip it does not overlap" % u(st_), cfg.describe_path(path) if path else None)
+
+
 RULES = [
     ("C06.R1", "CIGAR consumption tables of the three walkers vs. SAM", r1),
     ("C06.R2", "unknown operators are rejected", r2),
@@ -647,7 +702,8 @@ RULES = [
     ("C06.R6", "no-reference handlers index allele and query by the same progress", r6),
     ("C06.R7", "variant normalisation strips only bases shared by all alleles", r7),
     ("C06.R8", "variant cursor skips only variants strictly left of the read", r8),
+    ("C06.R9", "reference-free walker passes variants left of ref_pos before queueing", r9),
 ]
 # instance floors: about 60% of the instances confirmed by hand on the reference tree -- a rule that suddenly matches far fewer
 # sites fails the run (exit 2); a clean-up that merges two sites into one does not
-FLOORS = {"C06.R1": 16, "C06.R2": 3, "C06.R3": 5, "C06.R4": 7, "C06.R5": 6, "C06.R6": 2, "C06.R7": 2, "C06.R8": 2}
+FLOORS = {"C06.R1": 16, "C06.R2": 3, "C06.R3": 5, "C06.R4": 7, "C06.R5": 6, "C06.R6": 2, "C06.R7": 2, "C06.R8": 2, "C06.R9": 2}
